@@ -84,7 +84,7 @@ def run(ctx):
     r = isa.check(cases, want_spec=False)
     add("isa", r)
     total["distribution"]["isa_classes"] = len(r["distribution"])
-    items = progrun.gen_items(seed + 1, 3000 if thorough else 300)
+    items = progrun.gen_items(seed + 1, 3000 if thorough else 300) + progrun.boundary_data_items()
     r = progrun.check_programs(items)
     add("prog", r)
     total["distribution"]["prog"] = r["stats"]
